@@ -97,6 +97,7 @@ def _cases(draw, tier):
     cfg = draw(G.layout_isa(zones=False))
     why = draw(st.sampled_from(['twice-direct', 'twice-nested', 'diamond', 'missing', 'ambiguous', 'self', 'ambiguous-link-to-the-other', 'missing-but-in-the-working-directory',
                                  'ambiguous-copy-next-to-includer', 'ambiguous-copy-next-to-nested-includer',
+                                 'file-constants-of-one-name', 'file-constants-of-one-name',
                                  'ambiguous-the-other-is-a-directory', 'self-with-a-namesake-elsewhere', 'self-with-a-namesake-elsewhere',
                                  'includer-file-label-used-in-included', 'included-file-label-used-in-includer',
                                  'includer-file-label-used-in-nested', 'inert-twice', 'inert-missing']))
@@ -116,6 +117,12 @@ def _cases(draw, tier):
     elif why == 'inert-missing':
         items = [dict(byte), {'t': 'ifdef', 'name': 'NEVER_DEFINED_SYM'},
                  {'t': 'include', 'file': 'nowhere.asm', 'items': [], 'path': 'nowhere.asm', 'absent': True}, {'t': 'endif'}, dict(byte)]
+    elif why == 'file-constants-of-one-name':
+        # not a reject scenario: both files define a file-scoped constant of the same name with another value and use it in
+        # first-pass directives (.align, .fill count); each file sees its own
+        p1, p2 = draw(st.sampled_from([(4, 16), (16, 4), (2, 8), (8, 32), (3, 5)]))
+        return {'kind': 'reject', 'isa': cfg, 'items': [], 'why': why, 'idirs': ['inc_a', 'inc_b'], 'links': 0, 'pages': [p1, p2],
+                'where': draw(st.sampled_from(['inc_a', 'inc_b', '.']))}
     elif why == 'self-with-a-namesake-elsewhere':
         items = [dict(byte), {'t': 'include', 'file': 'main.asm', 'items': [], 'path': 'main.asm'}]
     elif why == 'self':
@@ -304,6 +311,36 @@ def execute(case, ctx):
             _into_subdir(files)
             files['common.asm'] = '.byte 9\n'
             main = 'proj/main.asm'
+        if why == 'file-constants-of-one-name':
+            p1, p2 = case['pages']
+            inc = (case['where'] + '/' if case['where'] != '.' else '') + 'part.asm'
+            files = {fname: text, 'main.asm': f'_pg = {p1}\n.byte 1\n.align _pg\n.fill _pg, 2\n#include "part.asm"\n.align _pg\n.byte 5\n',
+                     inc: f'_pg = {p2}\n.byte 3\n.align _pg\n.fill _pg, 4\n'}
+            org = isa.origin
+            mem, a = {}, org
+
+            def put(v, n=1):
+                nonlocal a
+                for _ in range(n):
+                    mem[a] = v
+                    a += 1
+
+            def align(p):
+                nonlocal a
+                a = -(-a // p) * p
+            put(1); align(p1); put(2, p1); put(3); align(p2); put(4, p2); align(p1); put(5)
+            want = bytes(mem.get(x, 0) for x in range(org, a))
+            argv = _argv(fname, case['idirs'], org, a - 1)
+            res = runner.run_forked(argv, files)
+            detail = {'sources': {k: v for k, v in files.items() if k.endswith('.asm')}, 'argv': argv, 'why': why,
+                      'expected_image': want.hex(), 'run': res.brief()}
+            fs = []
+            if res.klass != 'accepted':
+                fs.append(Finding('C17/model/valid-program-rejected', detail))
+            elif res.outputs.get('out.bin') != want:
+                fs.append(Finding('C17/model/image-differs/file-constants-of-one-name', detail))
+            return Outcome(fs, True, ['kind:accept-scenario', 'why:' + why, 'outcome:' + res.klass], 1,
+                           sample={'sources': detail['sources'], 'why': why})
         if why == 'ambiguous-the-other-is-a-directory':
             files['inc_b/common.asm/readme.txt'] = 'a directory of that name\n'      # found in two search directories all the same
         if why == 'self-with-a-namesake-elsewhere':
